@@ -686,7 +686,21 @@ func init() {
 			}
 			return iface{}
 		},
-		"(*sync.Pool).Put": func(i *interpreter, fr *frame, a []value) value { return nil },
+		"(*sync.Pool).Put": func(i *interpreter, fr *frame, a []value) value {
+			// From here on the object belongs to the pool: any other goroutine may Get and modify it.
+			// Every cell reachable from it is marked released; a later load or store of such a cell by
+			// the same call is counted as a mutation of process-wide state (use after release).
+			if i.ps != nil && !i.inInit {
+				if i.ps.released == nil {
+					i.ps.released = map[*value]string{}
+				}
+				old := i.ps.frozen
+				i.ps.frozen = i.ps.released
+				i.freezeWalk(a[1], "object handed to sync.Pool.Put", map[interface{}]bool{})
+				i.ps.frozen = old
+			}
+			return nil
+		},
 		"sort.Slice":       func(i *interpreter, fr *frame, a []value) value { return i.sortSlice(fr, a[0], a[1]) },
 		"sort.SliceStable": func(i *interpreter, fr *frame, a []value) value { return i.sortSlice(fr, a[0], a[1]) },
 		"internal/bytealg.MakeNoZero": func(i *interpreter, fr *frame, a []value) value {
